@@ -968,6 +968,33 @@ Fixpoint span_plain (s : str) : str * str :=
   | [] => ([], [])
   end.
 
+(* "x..y}" or "x..y..n}" right after a '{' *)
+Definition parse_seq (s : str) : option (sq * str) :=
+  let '(x, r2) := span_plain s in
+  match r2 with
+  | c1 :: c2 :: r3 =>
+      if (c1 =? DOT) && (c2 =? DOT) then
+        let '(y, r4) := span_plain r3 in
+        match r4 with
+        | c3 :: r5 =>
+            if c3 =? RB then Some (mkSq x y None, r5)
+            else match r5 with
+                 | c4 :: r6 =>
+                     if (c3 =? DOT) && (c4 =? DOT) then
+                       let '(n, r7) := span_plain r6 in
+                       match r7 with
+                       | c5 :: r8 => if c5 =? RB then Some (mkSq x y (Some n), r8) else None
+                       | [] => None
+                       end
+                     else None
+                 | [] => None
+                 end
+        | [] => None
+        end
+      else None
+  | _ => None
+  end.
+
 Fixpoint parse_wt (fuel : nat) (s : str) : option (wt * str) :=
   match fuel with
   | O => None
@@ -976,6 +1003,13 @@ Fixpoint parse_wt (fuel : nat) (s : str) : option (wt * str) :=
       match r with
       | c :: r1 =>
           if c =? LB then
+            match (match parse_seq r1 with Some (d, r5) => if sq_okb d then Some (d, r5) else None | None => None end) with
+            | Some (d, r5) =>
+                match parse_wt f r5 with
+                | Some (rest, r6) => Some (WSeq p d rest, r6)
+                | None => None
+                end
+            | None =>
             match parse_wt f r1 with
             | Some (a, c2 :: r2) =>
                 if c2 =? COMMA then
@@ -991,6 +1025,7 @@ Fixpoint parse_wt (fuel : nat) (s : str) : option (wt * str) :=
                   end
                 else None
             | _ => None
+            end
             end
           else Some (WEnd p, r)
       | [] => Some (WEnd p, r)
@@ -1030,6 +1065,27 @@ Proof.
       destruct (IH p' r' eq_refl) as [-> Hp]. split; [reflexivity|]. unfold plain in *. simpl. now rewrite M.
 Qed.
 
+Lemma parse_seq_sound : forall s d r, parse_seq s = Some (d, r) -> s = sq_text d ++ RB :: r.
+Proof.
+  intros s d r H. unfold parse_seq in H.
+  destruct (span_plain s) as [x r2] eqn:Sx. destruct (span_plain_ok _ _ _ Sx) as [-> _].
+  destruct r2 as [|c1 [|c2 r3]]; try discriminate.
+  destruct ((c1 =? DOT) && (c2 =? DOT)) eqn:E1; [|discriminate].
+  apply andb_prop in E1. destruct E1 as [E1 E2]. apply N.eqb_eq in E1, E2. subst c1 c2.
+  destruct (span_plain r3) as [y r4] eqn:Sy. destruct (span_plain_ok _ _ _ Sy) as [-> _].
+  destruct r4 as [|c3 r5]; [discriminate|].
+  destruct (c3 =? RB) eqn:E3.
+  - apply N.eqb_eq in E3. subst c3. injection H as <- <-. unfold sq_text, sq_tail. simpl.
+    rewrite <- !app_assoc. simpl. rewrite ?app_nil_r. reflexivity.
+  - destruct r5 as [|c4 r6]; [discriminate|].
+    destruct ((c3 =? DOT) && (c4 =? DOT)) eqn:E4; [|discriminate].
+    apply andb_prop in E4. destruct E4 as [E4 E5]. apply N.eqb_eq in E4, E5. subst c3 c4.
+    destruct (span_plain r6) as [n r7] eqn:Sn. destruct (span_plain_ok _ _ _ Sn) as [-> _].
+    destruct r7 as [|c5 r8]; [discriminate|].
+    destruct (c5 =? RB) eqn:E6; [|discriminate]. apply N.eqb_eq in E6. subst c5. injection H as <- <-.
+    unfold sq_text, sq_tail. simpl. rewrite <- !app_assoc. simpl. rewrite <- !app_assoc. reflexivity.
+Qed.
+
 Lemma parse_sound : forall fuel,
   (forall s t r, parse_wt fuel s = Some (t, r) -> s = U t ++ r /\ ok_wt t = true) /\
   (forall s m r, parse_alts fuel s = Some (m, r) -> s = UA m ++ r /\ ok_alts m = true).
@@ -1040,6 +1096,14 @@ Proof.
     destruct r0 as [|c r1]; [injection H as <- <-; auto|].
     destruct (c =? LB) eqn:Ec; [|injection H as <- <-; auto].
     apply N.eqb_eq in Ec. subst c.
+    destruct (match parse_seq r1 with Some (d, r5) => if sq_okb d then Some (d, r5) else None | None => None end)
+      as [[d r5]|] eqn:Ps.
+    { destruct (parse_seq r1) as [[d' r5']|] eqn:Ps'; [|discriminate].
+      destruct (sq_okb d') eqn:Okd; [|discriminate]. injection Ps as <- <-.
+      destruct (parse_wt f r5') as [[rest r6]|] eqn:Pr; [|discriminate]. injection H as <- <-.
+      rewrite (parse_seq_sound _ _ _ Ps'). destruct (IHw _ _ _ Pr) as [-> Or]. split.
+      - cbn [U]. rewrite <- !app_assoc. simpl. rewrite <- !app_assoc. reflexivity.
+      - simpl. now rewrite Hp, Okd, Or. }
     destruct (parse_wt f r1) as [[a [|c2 r2]]|] eqn:Pa; try discriminate.
     destruct (c2 =? COMMA) eqn:Ec2; [|discriminate]. apply N.eqb_eq in Ec2. subst c2.
     destruct (parse_alts f r2) as [[more [|c3 r3]]|] eqn:Pm; try discriminate.
@@ -1075,6 +1139,20 @@ Proof.
 Qed.
 
 (* the regular words avoid all four listed classes by construction; non-vacuity: a nested example *)
+Lemma ex_regular_seq :   (* a{{1..3},{x..z..2}b}{08..10} : sequences inside a group, a step, zero padding *)
+  let w := [97;123;123;49;46;46;51;125;44;123;120;46;46;122;46;46;50;125;98;125;123;48;56;46;46;49;48;125] in
+  regular w = true /\ known_class w = false
+  /\ spec w = Words [[97;49;48;56]; [97;49;48;57]; [97;49;49;48]; [97;50;48;56]; [97;50;48;57]; [97;50;49;48];
+                     [97;51;48;56]; [97;51;48;57]; [97;51;49;48]; [97;120;98;48;56]; [97;120;98;48;57]; [97;120;98;49;48];
+                     [97;122;98;48;56]; [97;122;98;48;57]; [97;122;98;49;48]].
+Proof. vm_compute. auto. Qed.
+
+(* a range that exceeds the limit is regular too: both sides say "too many" *)
+Lemma ex_regular_many :   (* x{1..20000} *)
+  let w := [120;123;49;46;46;50;48;48;48;48;125] in
+  regular w = true /\ spec w = Many /\ expand_word w = Err E_LIMIT.
+Proof. vm_compute. auto. Qed.
+
 Lemma ex_regular :   (* a{b,{c,d}e,}f{x,y} *)
   let w := [97;123;98;44;123;99;44;100;125;101;44;125;102;123;120;44;121;125] in
   regular w = true /\ known_class w = false
